@@ -839,6 +839,346 @@ theorem maxEnd_is_max (ops : List Op) :
         · right; exact ⟨o, by simp [hm], by omega⟩
       · right; exact ⟨op, by simp, by omega⟩
 
+/-! ## Part 5: the loop transliteration `recvLoop` refines `ins` -/
+
+/-- every segment of `pre` lies entirely before `start` -/
+def Passed (pre : List Seg) (start : Nat) : Prop := ∀ s ∈ pre, s.off < start ∧ s.stop ≤ start
+
+theorem Passed.snoc {pre : List Seg} {start start' : Nat} {s : Seg} (h : Passed pre start) (hle : start ≤ start')
+    (h1 : s.off < start') (h2 : s.stop ≤ start') : Passed (pre ++ [s]) start' := by
+  intro x hm
+  rcases List.mem_append.mp hm with hm | hm
+  · have := h x hm; omega
+  · simp at hm; subst hm; exact ⟨h1, h2⟩
+
+theorem lowerBound_passed {pre : List Seg} {start : Nat} (h : Passed pre start) (suf : List Seg) :
+    lowerBound (pre ++ suf) start = pre.length + lowerBound suf start := by
+  induction pre with
+  | nil => simp
+  | cons p pre ih =>
+    have hp := (h p (by simp)).1
+    have := ih (fun s hm => h s (by simp [hm]))
+    simp [lowerBound, hp, this]; omega
+
+theorem getElem?_pre_len (pre suf : List Seg) : (pre ++ suf)[pre.length]? = suf.head? := by
+  rw [List.getElem?_append_right (Nat.le_refl _)]; simp [List.head?_eq_getElem?]
+
+theorem getElem?_pre_len_succ (pre : List Seg) (seg : Seg) (rest : List Seg) :
+    (pre ++ seg :: rest)[pre.length + 1]? = rest.head? := by
+  rw [List.getElem?_append_right (by omega)]; simp [List.head?_eq_getElem?]
+
+theorem search_nil {pre : List Seg} {start : Nat} (h : Passed pre start) :
+    search (pre ++ []) start = .err pre.length := by
+  unfold search
+  simp only [lowerBound_passed h, lowerBound, Nat.add_zero, getElem?_pre_len, List.head?_nil]
+
+theorem search_lt {pre : List Seg} {start : Nat} (h : Passed pre start) {seg : Seg} (rest : List Seg)
+    (hlt : start < seg.off) : search (pre ++ seg :: rest) start = .err pre.length := by
+  unfold search
+  have : ¬ seg.off < start := by omega
+  have hne : seg.off ≠ start := by omega
+  simp [lowerBound_passed h, lowerBound, this, hne]
+
+theorem search_eq {pre : List Seg} {start : Nat} (h : Passed pre start) {seg : Seg} (rest : List Seg)
+    (heq : seg.off = start) : search (pre ++ seg :: rest) start = .ok pre.length := by
+  unfold search
+  simp [lowerBound_passed h, lowerBound, heq]
+
+theorem search_gt {pre : List Seg} {start : Nat} (h : Passed pre start) {seg : Seg} {rest : List Seg}
+    (hgt : seg.off < start) (hrest : ∀ s ∈ rest.head?, start < s.off) :
+    search (pre ++ seg :: rest) start = .err (pre.length + 1) := by
+  unfold search
+  have hlb : lowerBound rest start = 0 := by
+    cases rest with
+    | nil => rfl
+    | cons r rest' =>
+      have := hrest r (by simp)
+      have : ¬ r.off < start := by omega
+      simp [lowerBound, this]
+  simp only [lowerBound_passed h, lowerBound, hgt, if_true, hlb, Nat.zero_add, getElem?_pre_len_succ]
+  cases rest with
+  | nil => simp
+  | cons r rest' =>
+    have := hrest r (by simp)
+    have : r.off ≠ start := by omega
+    simp [this]
+
+theorem insertAt_pre (pre suf : List Seg) (x : Seg) : insertAt (pre ++ suf) pre.length x = pre ++ x :: suf := by
+  simp [insertAt]
+
+theorem insertAt_pre_succ (pre : List Seg) (seg : Seg) (rest : List Seg) (x : Seg) :
+    insertAt (pre ++ seg :: rest) (pre.length + 1) x = pre ++ seg :: x :: rest := by
+  have : pre ++ seg :: rest = (pre ++ [seg]) ++ rest := by simp
+  rw [this]
+  have h2 : pre.length + 1 = (pre ++ [seg]).length := by simp
+  rw [h2, insertAt_pre]; simp
+
+theorem recvLoop_empty (f : Nat) (segs : List Seg) (start lg : Nat) :
+    recvLoop (f + 1) segs start [] lg = .done segs lg := by
+  simp [recvLoop]
+
+/-- the last element of a non-empty passed prefix ends at or before `start` -/
+theorem passed_last {p : Seg} {pre : List Seg} {start : Nat} (h : Passed (p :: pre) start) (suf : List Seg) :
+    ∃ prev, (p :: pre ++ suf)[pre.length]? = some prev ∧ prev.stop ≤ start := by
+  have hlt : pre.length < (p :: pre).length := by simp
+  refine ⟨(p :: pre)[pre.length], ?_, ?_⟩
+  · rw [List.getElem?_append_left hlt, List.getElem?_eq_getElem hlt]
+  · exact (h _ (List.getElem_mem hlt)).2
+
+/-- Loop iteration that inserts in front of nothing (end of the deque). -/
+theorem loop_insert_nil {pre : List Seg} {start : Nat} {data : Bytes} (lg f : Nat) (hp : Passed pre start)
+    (hd : data ≠ []) :
+    recvLoop (f + 1) (pre ++ []) start data lg =
+      recvLoop f (pre ++ [⟨start, data⟩]) (start + data.length) [] (max lg (start + data.length)) := by
+  have hs := search_nil hp
+  cases pre with
+  | nil =>
+    simp only [List.length_nil, List.nil_append] at hs
+    simp [recvLoop, hd, hs, insertAt]
+  | cons p pre' =>
+    obtain ⟨prev, hprev, hstop⟩ := passed_last hp []
+    have hlen := List.length_pos_iff.mpr hd
+    have h1 : ¬ start + data.length ≤ prev.stop := by omega
+    have h2 : ¬ start < prev.stop := by omega
+    have hnext : (p :: pre' ++ [])[pre'.length + 1]? = none := by simp
+    have hins := insertAt_pre (p :: pre') [] ⟨start, data⟩
+    simp only [List.length_cons] at hs hins
+    simp only [recvLoop, hd, hs, hprev, h1, h2, hnext, hins, List.isEmpty_iff, if_false]
+
+/-- Loop iteration that inserts in front of `next` (no overlap with the previous segment). -/
+theorem loop_insert_cons {pre : List Seg} {start : Nat} {data : Bytes} (lg f : Nat) (hp : Passed pre start)
+    (hd : data ≠ []) {next : Seg} (rest : List Seg) (hlt : start < next.off) :
+    recvLoop (f + 1) (pre ++ next :: rest) start data lg =
+      if start + data.length > next.off then
+        recvLoop f (pre ++ ⟨start, data.take (next.off - start)⟩ :: next :: rest)
+          (start + (data.take (next.off - start)).length) (data.drop (next.off - start))
+          (max lg (start + (data.take (next.off - start)).length))
+      else
+        recvLoop f (pre ++ ⟨start, data⟩ :: next :: rest) (start + data.length) [] (max lg (start + data.length)) := by
+  have hs := search_lt hp rest hlt
+  have hnlt : ¬ next.off < start := by omega
+  cases pre with
+  | nil =>
+    simp only [List.length_nil, List.nil_append] at hs
+    by_cases hov : start + data.length > next.off
+    · have : ¬ next.off - start > data.length := by omega
+      simp [recvLoop, hd, hs, insertAt, hov, hnlt, this]
+    · simp [recvLoop, hd, hs, insertAt, hov]
+  | cons p pre' =>
+    obtain ⟨prev, hprev, hstop⟩ := passed_last hp (next :: rest)
+    have hlen := List.length_pos_iff.mpr hd
+    have h1 : ¬ start + data.length ≤ prev.stop := by omega
+    have h2 : ¬ start < prev.stop := by omega
+    have hnext : (p :: pre' ++ next :: rest)[pre'.length + 1]? = some next := by
+      have := getElem?_pre_len (p :: pre') (next :: rest)
+      simp
+    have hne : start ≠ next.off := by omega
+    simp only [List.length_cons] at hs
+    by_cases hov : start + data.length > next.off
+    · have h3 : ¬ next.off - start > data.length := by omega
+      have hins := insertAt_pre (p :: pre') (next :: rest) ⟨start, data.take (next.off - start)⟩
+      simp only [List.length_cons] at hins
+      simp only [recvLoop, hd, hs, hprev, h1, h2, hnext, hne, hov, hnlt, h3, hins, List.isEmpty_iff, if_false, if_true]
+    · have hins := insertAt_pre (p :: pre') (next :: rest) ⟨start, data⟩
+      simp only [List.length_cons] at hins
+      simp only [recvLoop, hd, hs, hprev, h1, h2, hnext, hne, hov, hins, List.isEmpty_iff, if_false]
+
+/-- Loop iteration at a segment that starts exactly at `start` (`Ok(i)`). -/
+theorem loop_aligned {pre : List Seg} {start : Nat} {data : Bytes} (lg f : Nat) (hp : Passed pre start)
+    (hd : data ≠ []) {seg : Seg} (rest : List Seg) (heq : seg.off = start) :
+    recvLoop (f + 1) (pre ++ seg :: rest) start data lg =
+      recvLoop f (pre ++ seg :: rest) (start + min data.length seg.data.length)
+        (data.drop (min data.length seg.data.length)) lg := by
+  have hs := search_eq hp rest heq
+  have hg : (pre ++ seg :: rest)[pre.length]? = some seg := by simp
+  simp only [recvLoop, hd, hs, hg, List.isEmpty_iff, if_false]
+
+/-- Loop iteration inside a segment (`Err(i+1)`, overlapping the previous segment) whose trimmed rest starts
+exactly at the next segment: the `continue` arm. -/
+theorem loop_trim_continue {pre : List Seg} {start : Nat} {data : Bytes} (lg f : Nat) (hp : Passed pre start)
+    {seg next : Seg} (rest : List Seg) (h1 : seg.off < start) (h2 : start < seg.stop)
+    (h3 : seg.stop < start + data.length) (h4 : seg.stop = next.off) :
+    recvLoop (f + 1) (pre ++ seg :: next :: rest) start data lg =
+      recvLoop f (pre ++ seg :: next :: rest) seg.stop (data.drop (seg.stop - start)) lg := by
+  have hd : data ≠ [] := by intro h; subst h; simp at h3; omega
+  have hs := search_gt hp h1 (rest := next :: rest) (by intro s hm; simp at hm; subst hm; omega)
+  have hg : (pre ++ seg :: next :: rest)[pre.length]? = some seg := by simp
+  have hn : (pre ++ seg :: next :: rest)[pre.length + 1]? = some next := by
+    rw [getElem?_pre_len_succ]; rfl
+  have c1 : ¬ start + data.length ≤ seg.stop := by omega
+  simp only [recvLoop, hd, hs, hg, hn, c1, h2, List.isEmpty_iff, if_false, if_true]
+  rw [if_pos h4]
+
+/-- Same situation, but the trimmed rest does not start at the next segment: the iteration does exactly what
+an iteration started at `seg.stop` with the trimmed data does. -/
+theorem loop_trim_other {pre : List Seg} {start : Nat} {data : Bytes} (lg f : Nat) (hp : Passed pre start)
+    {seg : Seg} (rest : List Seg) (h1 : seg.off < start) (h2 : start < seg.stop)
+    (h3 : seg.stop < start + data.length) (h4 : ∀ s ∈ rest.head?, seg.stop < s.off) :
+    recvLoop (f + 1) (pre ++ seg :: rest) start data lg =
+      recvLoop (f + 1) (pre ++ seg :: rest) seg.stop (data.drop (seg.stop - start)) lg := by
+  have hd : data ≠ [] := by intro h; subst h; simp at h3; omega
+  have hd2 : data.drop (seg.stop - start) ≠ [] := by
+    apply List.length_pos_iff.mp; simp only [List.length_drop]; omega
+  have hp' : Passed (pre ++ [seg]) seg.stop := hp.snoc (by omega) (by omega) (Nat.le_refl _)
+  have hassoc : pre ++ seg :: rest = (pre ++ [seg]) ++ rest := by simp
+  have hs := search_gt hp h1 (rest := rest) (by intro s hm; have := h4 s hm; omega)
+  have hg : (pre ++ seg :: rest)[pre.length]? = some seg := by simp
+  have c1 : ¬ start + data.length ≤ seg.stop := by omega
+  cases rest with
+  | nil =>
+    have hn : (pre ++ [seg])[pre.length + 1]? = none := by simp
+    have hins := insertAt_pre_succ pre seg [] ⟨seg.stop, data.drop (seg.stop - start)⟩
+    conv => rhs; rw [hassoc, loop_insert_nil lg f hp' hd2]
+    simp only [recvLoop, hd, hs, hg, hn, c1, h2, hins, List.isEmpty_iff, if_false, if_true]
+    simp
+  | cons next rest' =>
+    have hlt := h4 next (by simp)
+    have hn : (pre ++ seg :: next :: rest')[pre.length + 1]? = some next := by
+      rw [getElem?_pre_len_succ]; rfl
+    have hne : seg.stop ≠ next.off := by omega
+    have hnlt : ¬ next.off < seg.stop := by omega
+    conv => rhs; rw [hassoc, loop_insert_cons lg f hp' hd2 rest' hlt]
+    by_cases hov : seg.stop + (data.drop (seg.stop - start)).length > next.off
+    · have c3 : ¬ next.off - seg.stop > (data.drop (seg.stop - start)).length := by omega
+      have hins := insertAt_pre_succ pre seg (next :: rest')
+        ⟨seg.stop, (data.drop (seg.stop - start)).take (next.off - seg.stop)⟩
+      simp only [recvLoop, hd, hs, hg, hn, c1, h2, hne, hov, hnlt, c3, hins, List.isEmpty_iff, if_false, if_true]
+      simp
+    · have hins := insertAt_pre_succ pre seg (next :: rest') ⟨seg.stop, data.drop (seg.stop - start)⟩
+      simp only [recvLoop, hd, hs, hg, hn, c1, h2, hne, hov, hins, List.isEmpty_iff, if_false, if_true]
+      simp
+
+/-- Loop iteration whose data lies entirely inside the previous segment: the `break` arm. -/
+theorem loop_trim_break {pre : List Seg} {start : Nat} {data : Bytes} (lg f : Nat) (hp : Passed pre start)
+    (hd : data ≠ []) {seg : Seg} (rest : List Seg) (h1 : seg.off < start)
+    (h3 : start + data.length ≤ seg.stop) (h4 : ∀ s ∈ rest.head?, start < s.off) :
+    recvLoop (f + 1) (pre ++ seg :: rest) start data lg = .done (pre ++ seg :: rest) lg := by
+  have hs := search_gt hp h1 h4
+  have hg : (pre ++ seg :: rest)[pre.length]? = some seg := by simp
+  simp only [recvLoop, hd, hs, hg, h3, List.isEmpty_iff, if_false, if_true]
+
+/-- Refinement, generalised over the segments `pre` already passed: with `2·|suf| + 2` iterations the loop
+returns exactly what the single pass `ins` computes on the remaining segments. -/
+theorem recvLoop_eq_ins_aux {hi : Nat} (suf : List Seg) :
+    ∀ (lo : Nat) (pre : List Seg) (start : Nat) (data : Bytes) (lg fuel : Nat),
+      Passed pre start → Wf lo hi suf → 2 * suf.length + 2 ≤ fuel →
+      recvLoop fuel (pre ++ suf) start data lg =
+        .done (pre ++ (ins suf start data lg).1) (ins suf start data lg).2 := by
+  induction suf with
+  | nil =>
+    intro lo pre start data lg fuel hp _ hf
+    obtain ⟨f, rfl⟩ : ∃ f, fuel = f + 2 := ⟨fuel - 2, by omega⟩
+    by_cases hd : data = []
+    · subst hd; rw [recvLoop_empty, ins_empty]
+    · rw [loop_insert_nil lg (f + 1) hp hd, recvLoop_empty, ins_nil hd]
+  | cons seg rest ih =>
+    intro lo pre start data lg fuel hp hw hf
+    obtain ⟨a, b, c, d⟩ := hw
+    have hsl := Seg.off_lt_stop b
+    have hstop : seg.off + seg.data.length = seg.stop := rfl
+    simp only [List.length_cons] at hf
+    -- continuing behind `seg` is the induction hypothesis with `seg` moved to the passed prefix
+    have behind : ∀ (pre' : List Seg) (st' : Nat) (data' : Bytes) (lg' f : Nat),
+        Passed pre' st' → seg.stop ≤ st' → 2 * rest.length + 2 ≤ f →
+        recvLoop f (pre' ++ seg :: rest) st' data' lg' =
+          .done (pre' ++ seg :: (ins rest st' data' lg').1) (ins rest st' data' lg').2 := by
+      intro pre' st' data' lg' f hp' hle hf'
+      have := ih seg.stop (pre' ++ [seg]) st' data' lg' f (hp'.snoc (Nat.le_refl _) (by omega) hle) d hf'
+      simpa only [List.append_assoc, List.singleton_append] using this
+    -- an iteration that starts exactly at `seg`
+    have aligned : ∀ (pre' : List Seg) (data' : Bytes) (lg' f : Nat),
+        Passed pre' seg.off → data' ≠ [] → 2 * rest.length + 3 ≤ f →
+        recvLoop f (pre' ++ seg :: rest) seg.off data' lg' =
+          .done (pre' ++ seg :: (ins rest seg.stop (data'.drop seg.data.length) lg').1)
+            (ins rest seg.stop (data'.drop seg.data.length) lg').2 := by
+      intro pre' data' lg' f hp' hd' hf'
+      obtain ⟨g, rfl⟩ : ∃ g, f = g + 2 := ⟨f - 2, by omega⟩
+      rw [loop_aligned lg' (g + 1) hp' hd' rest rfl]
+      by_cases hle : data'.length ≤ seg.data.length
+      · have e1 : min data'.length seg.data.length = data'.length := by omega
+        rw [e1, List.drop_length, recvLoop_empty, List.drop_eq_nil_of_le hle, ins_empty]
+      · have e1 : min data'.length seg.data.length = seg.data.length := by omega
+        rw [e1, hstop]
+        exact behind pre' seg.stop _ lg' (g + 1) (fun s hm => by have := hp' s hm; omega) (Nat.le_refl _) (by omega)
+    by_cases hd : data = []
+    · obtain ⟨f, rfl⟩ : ∃ f, fuel = f + 1 := ⟨fuel - 1, by omega⟩
+      subst hd; rw [recvLoop_empty, ins_empty]
+    have hlen := List.length_pos_iff.mpr hd
+    by_cases h1 : start + data.length ≤ seg.off
+    · -- entirely before `seg`
+      obtain ⟨f, rfl⟩ : ∃ f, fuel = f + 2 := ⟨fuel - 2, by omega⟩
+      have hov : ¬ start + data.length > seg.off := by omega
+      rw [loop_insert_cons lg (f + 1) hp hd rest (by omega), if_neg hov, recvLoop_empty, ins_before hd h1]
+    by_cases h2 : seg.stop ≤ start
+    · -- entirely after `seg`
+      rw [ins_after hd h1 h2]
+      exact behind pre start data lg fuel hp h2 (by omega)
+    rw [ins_overlap hd h1 h2]
+    have hmax : max start seg.stop = seg.stop := by omega
+    rw [hmax]
+    by_cases hlt : start < seg.off
+    · -- uncovered prefix in front of `seg`, then aligned with `seg`
+      obtain ⟨f, rfl⟩ : ∃ f, fuel = f + 2 := ⟨fuel - 2, by omega⟩
+      have hov : start + data.length > seg.off := by omega
+      have hk : (data.take (seg.off - start)).length = seg.off - start := by rw [List.length_take]; omega
+      have e : start + (data.take (seg.off - start)).length = seg.off := by omega
+      rw [loop_insert_cons lg (f + 1) hp hd rest hlt, if_pos hov, e]
+      have hassoc : pre ++ ⟨start, data.take (seg.off - start)⟩ :: seg :: rest
+          = (pre ++ [⟨start, data.take (seg.off - start)⟩]) ++ seg :: rest := by simp
+      have hp' : Passed (pre ++ [⟨start, data.take (seg.off - start)⟩]) seg.off :=
+        hp.snoc (by omega) hlt (by simp only [Seg.stop]; omega)
+      have hd' : data.drop (seg.off - start) ≠ [] := by
+        apply List.length_pos_iff.mp; rw [List.length_drop]; omega
+      rw [hassoc, aligned _ _ _ (f + 1) hp' hd' (by omega)]
+      have e2 : (data.drop (seg.off - start)).drop seg.data.length = data.drop (seg.stop - start) := by
+        rw [List.drop_drop]; congr 1; omega
+      simp only [hlt, if_true, e2, List.append_assoc, List.singleton_append]
+    · simp only [hlt, if_false, List.nil_append]
+      by_cases heq : start = seg.off
+      · -- aligned with `seg`
+        have e2 : seg.stop - start = seg.data.length := by omega
+        rw [heq] at hp ⊢
+        rw [aligned pre data lg fuel hp hd (by omega)]
+        have : seg.stop - seg.off = seg.data.length := by omega
+        rw [this]
+      · -- starts inside `seg`
+        have hgt : seg.off < start := by omega
+        have hin : start < seg.stop := by omega
+        have hhead : ∀ s ∈ rest.head?, seg.stop ≤ s.off := by
+          intro s hm
+          cases rest with
+          | nil => simp at hm
+          | cons r rest' => simp at hm; subst hm; exact d.1
+        obtain ⟨f, rfl⟩ : ∃ f, fuel = f + 1 := ⟨fuel - 1, by omega⟩
+        by_cases h3 : start + data.length ≤ seg.stop
+        · rw [loop_trim_break lg f hp hd rest hgt h3 (fun s hm => by have := hhead s hm; omega)]
+          rw [List.drop_eq_nil_of_le (by omega), ins_empty]
+        · have h3' : seg.stop < start + data.length := by omega
+          by_cases hcont : ∃ next rest', rest = next :: rest' ∧ seg.stop = next.off
+          · obtain ⟨next, rest', hr, hno⟩ := hcont
+            subst hr
+            rw [loop_trim_continue lg f hp rest' hgt hin h3' hno]
+            exact behind pre seg.stop _ lg f (fun s hm => by have := hp s hm; omega) (Nat.le_refl _) (by omega)
+          · have h4 : ∀ s ∈ rest.head?, seg.stop < s.off := by
+              intro s hm
+              have hge := hhead s hm
+              cases rest with
+              | nil => simp at hm
+              | cons r rest' =>
+                simp at hm; subst hm
+                have : seg.stop ≠ r.off := fun h => hcont ⟨r, rest', rfl, h⟩
+                omega
+            rw [loop_trim_other lg f hp rest hgt hin h3' h4]
+            exact behind pre seg.stop _ lg (f + 1) (fun s hm => by have := hp s hm; omega) (Nat.le_refl _) (by omega)
+
+theorem recvViaLoop_eq_recv {s : State} (hs : StructInv s) (off : Nat) (data : Bytes) :
+    recvViaLoop s off data = .ok (recv s off data).1 (recv s off data).2 := by
+  have h := recvLoop_eq_ins_aux s.segs s.nread [] (max off s.nread)
+    (data.drop (min data.length (max off s.nread - off))) s.largest (loopFuel s.segs)
+    (fun _ hm => by simp at hm) hs.1 (Nat.le_refl _)
+  simp only [List.nil_append] at h
+  simp only [recvViaLoop, h, recv]
+
 /-! ### concrete history used by the non-vacuity examples of Props/C08.lean:
 three overlapping fragments (the second overlaps the first on the left, the third on the right and is
 partly already read), interleaved with `read` / `next`. -/
